@@ -819,6 +819,21 @@ class TestClaimRedaction:
         assert list(out) == ["email"]
         assert out["email"] == REDACTED
 
+    def test_nested_claims_are_redacted(self) -> None:
+        """A sensitive key is sensitive at any depth, inside objects and arrays."""
+        out = redact_claims(
+            {
+                "ctx": {"email": "a@b.com", "tenant": "t1"},
+                "ids": [{"api_key": "k", "kind": "svc"}, "plain"],
+                "vgi_proxy_proof": {"proxy": "p", "inner": {"deep": [{"password": "p"}]}},
+            }
+        )
+        assert out == {
+            "ctx": {"email": REDACTED, "tenant": "t1"},
+            "ids": [{"api_key": REDACTED, "kind": "svc"}, "plain"],
+            "vgi_proxy_proof": {"proxy": "p", "inner": {"deep": [{"password": REDACTED}]}},
+        }
+
     def test_non_sensitive_claims_pass_through(self) -> None:
         """Redaction must not gut the record — `iss`/`aud`/`scope` stay."""
         claims = {"iss": "https://idp", "aud": "svc", "scope": "read", "exp": 123}
